@@ -28,8 +28,13 @@ pub fn set_clock(real_ns: i128, mono_ns: i128) {
             mono: ((mono_ns.div_euclid(1_000_000_000)) as i64, (mono_ns.rem_euclid(1_000_000_000)) as i64),
             reads: vec![],
             fail_id: None,
+            advance_ns: 0,
         }
     });
+}
+
+pub fn set_advance(ns: i64) {
+    VCLOCK.with(|v| v.borrow_mut().advance_ns = ns);
 }
 
 pub fn clock_off() -> Vec<i32> {
@@ -234,6 +239,7 @@ pub fn cmd_poller(a: &[&str]) -> String {
     let t = if some { Some(tracking(0.0, 0.0, 0.0, 1.0, 0, ref_time_for_age(1000), t_refid)) } else { None };
     let ops = MockOps { tracking: t, grace, reads_before_query: reads.clone() };
     set_clock(BASE_SECS as i128 * 1_000_000_000, 123_000_000_456);
+    set_advance(1_000_000_000);
     let res = std::panic::catch_unwind(std::panic::AssertUnwindSafe(|| vp::run_poller(ctx, ops, phc_info, Duration::from_millis(1))));
     let clock_reads = clock_off();
     let _ = std::fs::remove_file(&path);
